@@ -338,6 +338,7 @@ func (b *Buffer) getAsync(ctx context.Context, c *consumer, offset int, cancels 
 
 	// spawn a sender for it
 	go func() {
+		verifHook("buffer.getasync.spawned")
 		// we need to wait for the value in the buffer, so we need to write lock the buffer
 		b.mutex.Lock()
 		defer b.mutex.Unlock()
@@ -533,6 +534,7 @@ func (b *Buffer) cleanup() {
 
 				// wait for the timer to expire
 				<-timer.C
+				verifHook("buffer.cleanup.timer")
 			}()
 		}
 	)
@@ -584,6 +586,7 @@ func (b *Buffer) cleanupLogic() bool {
 	b.buffer = b.buffer[shift:]
 	b.offset += shift
 
+	verifHook("buffer.cleanup.shifted")
 	// broadcast that we changed the buffer
 	b.cond.Broadcast()
 
